@@ -17,3 +17,9 @@ keys = sorted({f.skey for f in prog.fns.values() if "{closure" not in f.skey})
 out = os.path.join(VERIF, "rules", "known_fns.txt")
 open(out, "w").write("\n".join(keys) + "\n")
 print("wrote %s: %d functions" % (out, len(keys)))
+# closures are numbered, and a new closure renumbers the old ones: they are listed by parent and by the shape of their body
+from blue import inline as I
+cl = sorted({"%s\t%s" % (I.closure_parent_skey(f), I.closure_shape(f)) for f in prog.fns.values() if "{closure" in f.skey})
+out = os.path.join(VERIF, "rules", "known_closures.txt")
+open(out, "w").write("\n".join(cl) + "\n")
+print("wrote %s: %d closures" % (out, len(cl)))
